@@ -250,6 +250,30 @@ func (g *genC10) Block(w *World, b int) Block {
 		add(op)
 	}
 	blk.Steps = g.net.Apply(rng, b, len(w.nodes), steps)
+	if b > 0 && rng.Chance(1, 10) && len(g.users) >= 2 {
+		// a grant that is rolled back, then used: the owner's transaction [grant X a right on a folder, a
+		// payment that must fail] leaves nothing behind, so X's attempt right afterwards must be refused
+		owner := pick()
+		x := pick()
+		for x == owner {
+			x = pick()
+		}
+		child := g.paths[1+rng.Intn(len(g.paths)-1)]
+		idx := strings.LastIndex(child, "/")
+		parent := child[:idx]
+		grant := mkOp("ft_addeditors", owner).withN("acct", int64(owner)).withS("path", parent).withN("mask", 1<<uint(x))
+		use := mkOp("ft_post", x).withN("acct", int64(owner)).withS("parent", parent).withS("child", child[idx+1:]).
+			withS("contents", fmt.Sprintf("r%d", rng.Intn(1000))).withS("tracking", fmt.Sprintf("t%d-%d", owner, rng.Intn(4))).
+			withN("editors", (1<<uint(owner))|(1<<uint(x))).withN("viewers", 1<<uint(owner))
+		if rng.Chance(1, 3) {
+			grant = mkOp("ft_chown", owner).withN("acct", int64(owner)).withS("path", child).withN("newowner", int64(x))
+			use = mkOp("ft_delete", x).withN("acct", int64(x)).withS("path", child)
+		}
+		st := txStep(grant, mkOp("bank_send", owner).withN("to", 0).withN("amt", 9_000_000_000_000_000_000))
+		st.Fault = "multi_msg"
+		blk.Steps = append(blk.Steps, st, txStep(use))
+		w.Probe("rolled_back_grant_then_use")
+	}
 	if len(w.nodes) == 1 && rng.Chance(1, 50) {
 		blk.Reimport = true // restart of the whole chain from its own exported genesis
 	}
@@ -530,13 +554,15 @@ func (o *oracleC10) AfterStep(w *World, st *Step, msgs []sdk.Msg, res *abci.Resp
 		if same, what := ftEqual(o.pre, post); !same {
 			w.Violate("C10:failed-but-changed:"+kind, "failed %s changed the tree: %s", kind, what)
 		}
-		// a clearly authorised, well-formed message must not be rejected (fault-free only)
+		// The statement says "only when the signer has the right", not "whenever": a refusal of an authorised,
+		// well-formed message breaks nothing in it (a chain may add further conditions), so it is counted,
+		// not reported.
 		if msgs[0].ValidateBasic() != nil {
 			w.Probe("rejected_by_validate_basic")
 			return
 		}
 		if _, ok, _ := ftApply(o.pre, msgs[0]); ok && st.Kind == "tx" && st.Gas == 0 {
-			w.Violate("C10:authorised-rejected:"+kind, "%s by the %s was rejected: %s", kind, role, res.Log)
+			w.Probe("authorised_rejected:" + kind)
 		}
 		return
 	}
